@@ -25,7 +25,8 @@ RULE = ("Hypothesis: a history of 1-8 operations (append / delete_files / expire
         "the sequence of committed versions; the table in effect must have the original uuid and schema and the snapshot list and rows of the LATEST "
         "COMMITTED version; create_table must not re-initialise; an append must preserve all committed rows; GC must not delete files of the latest "
         "committed version. Non-trivial: the highest vN on disk is not the latest committed version, or the pointer names an existing but wrong version. "
-        "distinct = hash of (history, damage, action).")
+        "distinct = hash of (history, damage, action). Object storage: 1-12 commits on the fake S3 with conditional writes, the pointer OBJECT damaged (deleted / empty / "
+        "whitespace / bytes / digits / name of a missing file / trailing LF), then load_table / create_table / one or two appends: same table, all rows, writable again.")
 ASSUMPTIONS = ["'committed' = a version the pointer named after a call that returned success (pointer history recorded by the harness)",
                "the pointer of a healthy table with trailing newline/CRLF/space is still the current pointer (parser strips whitespace)"]
 REQUIRED_LABELS = {"quick": ["orphan-higher-than-committed", "damage:stale", "damage:deleted", "action:create_table", "versions>=10"], "thorough": ["orphan-higher-than-committed"]}
@@ -336,18 +337,96 @@ def check_case(case):
     return out
 
 
+# ---------------- the same on object storage (conditional writes): the pointer is an S3 object ----------------
+S3_DAMAGES = ["deleted", "empty", "whitespace", "random", "invalid_utf8", "digits_missing", "digits_huge", "missing_file", "current_lf", "long_garbage"]
+
+
+@st.composite
+def s3_case(draw):
+    return {"kind": "s3ptr", "ncommits": draw(st.integers(1, 12)), "damage": draw(st.sampled_from(S3_DAMAGES)), "rnd": draw(st.binary(min_size=1, max_size=12)),
+            "action": draw(st.sampled_from(["load_table", "create_table", "append", "append_twice"]))}
+
+
+def check_s3(case):
+    """Committed history (no leftovers) on the fake S3 with conditional writes, pointer object damaged, then open / append:
+    same uuid and schema, every committed row, and the table WRITABLE again (a commit after the damage is acknowledged and kept)."""
+    import datashard
+    from ..world import S3World
+
+    out = {"violations": [], "labels": ["s3-pointer", f"damage:{case['damage']}", f"action:{case['action']}"], "nontrivial": True}
+    w = S3World(conditional=True)
+    with w.env():
+        t = w.create(tbl.make_schema(FIELDS))
+        rows = []
+        for i in range(case["ncommits"]):
+            r = {"k": i, "s": f"c{i}"}
+            t.append_records([r])
+            rows.append(r)
+        fs = w.fs()
+        want = read_view(fs)
+        L = want["metadata_file"]
+        vL = _version_of(L)
+        key = w.key_prefix + "/" + HINT
+        dmg = case["damage"]
+        payload = {"empty": b"", "whitespace": b" \n\t\r\n", "random": case["rnd"], "invalid_utf8": b"\xff\xfe" + case["rnd"], "digits_missing": str(vL + 50).encode(),
+                   "digits_huge": b"9" * 40, "missing_file": f"v{vL + 3}-deadbeef.metadata.json".encode(), "current_lf": L.encode() + b"\n",
+                   "long_garbage": case["rnd"] * 500}.get(dmg)
+        if dmg == "deleted":
+            w.fake.objects.pop(key, None)
+        else:
+            w.fake.raw_put(key, payload)
+
+        def vio(sym, what):
+            out["violations"].append((f"s3-recovery/{dmg}/{sym}", f"S3 (conditional writes), {case['ncommits']} commits, pointer {dmg}, action {case['action']}: {what}"))
+
+        other_schema = tbl.make_schema([{"id": 9, "name": "zzz", "type": "string", "required": False}], 7)
+        try:
+            t2 = datashard.create_table(w.location(), other_schema) if case["action"] == "create_table" else datashard.load_table(w.location())
+            md = t2.metadata_manager.refresh()
+        except Exception as e:  # noqa
+            vio("open-raises", f"{type(e).__name__}: {str(e)[:120]}")
+            return out
+        if md is None or md.table_uuid != want["uuid"]:
+            vio("reinitialised", f"uuid {want['uuid']} -> {getattr(md, 'table_uuid', None)}")
+            return out
+        expect = list(rows)
+        try:
+            if rows_multiset(t2.scan()) != rows_multiset(expect):
+                vio("rows-differ", "scan after recovery does not return the committed rows")
+                return out
+            if case["action"] in ("append", "append_twice"):
+                for j in range(2 if case["action"] == "append_twice" else 1):
+                    r = {"k": -1 - j, "s": "after"}
+                    t2.append_records([r])
+                    expect.append(r)
+                got = rows_multiset(datashard.load_table(w.location()).scan())
+                if got != rows_multiset(expect):
+                    vio("append-lost-rows", f"after the follow-up append(s) the table has {sum(got.values())} rows, expected {len(expect)}")
+        except Exception as e:  # noqa
+            vio(f"not-usable-after-recovery/{type(e).__name__}", f"{type(e).__name__}: {str(e)[:140]}")
+    return out
+
+
 def plan(tier, seed):
     n = 180 if tier == "quick" else 3000
-    return [{"n": n, "seed": seed * 1000 + s, "tier": tier} for s in range(16)]
+    tasks = [{"n": n, "seed": seed * 1000 + s, "tier": tier} for s in range(16)]
+    tasks += [{"kind": "s3ptr", "n": 40 if tier == "quick" else 600, "seed": seed * 1000 + 300 + s, "tier": tier} for s in range(4 if tier == "quick" else 8)]
+    return tasks
 
 
 def run_task(task):
     res = Result()
+    if task.get("kind") == "s3ptr":
+        campaign(s3_case(), check_s3, task["n"], task["seed"], res, PROP, shrink=False)
+        return res
     campaign(case_strategy(), check_case, task["n"], task["seed"], res, PROP, shrink=task["tier"] == "thorough")
     return res
 
 
 def replay(case):
+    if case.get("kind") == "s3ptr":
+        o = check_s3(case)
+        return [{"bucket": b, "what": w} for b, w in o["violations"]]
     _fix_steps(case["steps"])
     o = check_case(case)
     return [{"bucket": b, "what": w} for b, w in o["violations"]]
